@@ -1264,7 +1264,7 @@ func (c *Ctx) binop(s *State, fr *Frame, x *ssa.BinOp) {
 		switch x.Op {
 		case token.ADD:
 			n := c.freshConst(s, "strcat", SStr)
-			c.assume(s, fmt.Sprintf("(= (strlen %s) (+ (strlen %s) (strlen %s)))", n, as.T, bs.T))
+			c.assume(s, fmt.Sprintf("(= (strlen %s) %s)", n, c.idxAdd(c.strLen(as.T), c.strLen(bs.T))))
 			fr.regs[x] = Scalar{n, SStr, x.Type()}
 			return
 		}
@@ -1409,14 +1409,12 @@ func (c *Ctx) convert(s *State, fr *Frame, x *ssa.Convert) {
 		// []byte(str): fresh array with len = strlen
 		sc := v.(Scalar)
 		arr := c.allocRef(s)
-		ln := c.bind(s, "len", c.ar.idxSort(), c.intFromMath(fmt.Sprintf("(strlen %s)", sc.T)))
+		ln := c.bind(s, "len", c.ar.idxSort(), c.strLen(sc.T))
 		fr.regs[x] = SliceV{arr, c.ar.idx(0), ln, ln, to}
 	case isByteSlice(from) && isStringType(to):
 		sl := v.(SliceV)
 		n := c.freshConst(s, "str", SStr)
-		if !c.ar.bv {
-			c.assume(s, fmt.Sprintf("(= (strlen %s) %s)", n, sl.Len))
-		}
+		c.assume(s, fmt.Sprintf("(= (strlen %s) %s)", n, sl.Len))
 		fr.regs[x] = Scalar{n, SStr, to}
 	case fok && isStringType(to):
 		fr.regs[x] = Scalar{c.freshConst(s, "str", SStr), SStr, to}
@@ -1688,7 +1686,7 @@ func (c *Ctx) indexAddr(s *State, fr *Frame, x *ssa.IndexAddr) {
 	case *types.Slice:
 		sl := base.(SliceV)
 		c.oblige(s, "safe:index", c.siteOf(x, "index"), c.inBounds(i, sl.Len), "index in range", x.Pos())
-		fr.regs[x] = c.elemAddr(s, sl.Arr, c.idxAdd(sl.Off, i), bt.Elem())
+		fr.regs[x] = c.elemAddr(s, sl.Arr, c.elemIdx(sl.Off, i), bt.Elem())
 	case *types.Pointer:
 		at := bt.Elem().Underlying().(*types.Array)
 		c.derefCheck(s, x, base)
@@ -1728,7 +1726,7 @@ func (c *Ctx) index(s *State, fr *Frame, x *ssa.Index) {
 		fr.regs[x] = Scalar{fmt.Sprintf("(select %s %s)", av.Term, i), sort, x.Type()}
 	case *types.Basic: // string index
 		sv := base.(Scalar)
-		c.oblige(s, "safe:index", c.siteOf(x, "index"), c.inBounds(i, c.intFromMath(fmt.Sprintf("(strlen %s)", sv.T))), "string index in range", x.Pos())
+		c.oblige(s, "safe:index", c.siteOf(x, "index"), c.inBounds(i, c.strLen(sv.T)), "string index in range", x.Pos())
 		fr.regs[x] = c.freshVal(s, "strbyte", x.Type())
 	default:
 		unsup("Index on %s", x.X.Type())
@@ -1766,7 +1764,7 @@ func (c *Ctx) sliceOp(s *State, fr *Frame, x *ssa.Slice) {
 	case *types.Basic:
 		isStr = true
 		sv := base.(Scalar)
-		ln = c.intFromMath(fmt.Sprintf("(strlen %s)", sv.T))
+		ln = c.strLen(sv.T)
 		cp = ln
 	default:
 		unsup("Slice on %s", x.X.Type())
@@ -1790,9 +1788,7 @@ func (c *Ctx) sliceOp(s *State, fr *Frame, x *ssa.Slice) {
 	c.oblige(s, "safe:slice", c.siteOf(x, "slice"), goal, "slice bounds in range", x.Pos())
 	if isStr {
 		n := c.freshConst(s, "substr", SStr)
-		if !c.ar.bv {
-			c.assume(s, fmt.Sprintf("(= (strlen %s) (- %s %s))", n, hi, lo))
-		}
+		c.assume(s, fmt.Sprintf("(= (strlen %s) %s)", n, c.idxSub(hi, lo)))
 		fr.regs[x] = Scalar{n, SStr, x.Type()}
 		return
 	}
@@ -1898,4 +1894,21 @@ func (c *Ctx) ptrFact(sc Scalar) string {
 
 func isErrVarName(n string) bool {
 	return strings.HasPrefix(n, "Err") || strings.HasPrefix(n, "err") || n == "EOF"
+}
+
+// strLen: length of a string value in the index sort of the current arithmetic mode.
+func (c *Ctx) strLen(t string) string { return fmt.Sprintf("(strlen %s)", t) }
+
+// elemIdx: absolute index of element i of a slice with offset off. A defined function (sidx) is used instead of a
+// bare sum so that quantified facts about slice elements have arithmetic-free triggers.
+func (c *Ctx) elemIdx(off, i string) string {
+	if off == c.ar.idx(0) {
+		return i
+	}
+	if _, ok := c.ar.numeral(off); ok {
+		if _, ok2 := c.ar.numeral(i); ok2 {
+			return c.idxAdd(off, i)
+		}
+	}
+	return fmt.Sprintf("(sidx %s %s)", off, i)
 }
